@@ -43,7 +43,14 @@ func TokText(k formula.SyntaxKind) string {
 // Canon renders the implementation's tree in the same canonical form as ref.Node.Canon.
 func Canon(e formula.Expression) string {
 	var sb strings.Builder
-	canon(&sb, e)
+	canon(&sb, false, e)
+	return sb.String()
+}
+
+// CanonValues is Canon with the value every literal carries (numbers, texts and the reserved-word literals alike).
+func CanonValues(e formula.Expression) string {
+	var sb strings.Builder
+	canon(&sb, true, e)
 	return sb.String()
 }
 
@@ -54,7 +61,7 @@ func opText(t *formula.TokenNode) string {
 	return TokText(t.Token)
 }
 
-func canon(sb *strings.Builder, e formula.Expression) {
+func canon(sb *strings.Builder, vals bool, e formula.Expression) {
 	if isNilNode(e) {
 		sb.WriteString("<nil>")
 		return
@@ -71,27 +78,30 @@ func canon(sb *strings.Builder, e formula.Expression) {
 		default:
 			sb.WriteString(TokText(n.Token))
 		}
+		if vals {
+			sb.WriteString(fmt.Sprintf("=%q", n.Value))
+		}
 	case *formula.PrefixUnaryExpression:
 		sb.WriteString("(pre " + opText(n.Operator) + " ")
-		canon(sb, n.Operand)
+		canon(sb, vals, n.Operand)
 		sb.WriteByte(')')
 	case *formula.TypeOfExpression:
 		sb.WriteString("(typeof ")
-		canon(sb, n.Expression)
+		canon(sb, vals, n.Expression)
 		sb.WriteByte(')')
 	case *formula.BinaryExpression:
 		sb.WriteString("(bin " + opText(n.Operator) + " ")
-		canon(sb, n.Left)
+		canon(sb, vals, n.Left)
 		sb.WriteByte(' ')
-		canon(sb, n.Right)
+		canon(sb, vals, n.Right)
 		sb.WriteByte(')')
 	case *formula.ConditionalExpression:
 		sb.WriteString("(cond ")
-		canon(sb, n.Condition)
+		canon(sb, vals, n.Condition)
 		sb.WriteByte(' ')
-		canon(sb, n.WhenTrue)
+		canon(sb, vals, n.WhenTrue)
 		sb.WriteByte(' ')
-		canon(sb, n.WhenFalse)
+		canon(sb, vals, n.WhenFalse)
 		sb.WriteByte(')')
 	case *formula.SelectorExpression:
 		op := "."
@@ -103,7 +113,7 @@ func canon(sb *strings.Builder, e formula.Expression) {
 			name = n.Name.Value
 		}
 		sb.WriteString("(sel " + op + " " + name + " ")
-		canon(sb, n.Expression)
+		canon(sb, vals, n.Expression)
 		sb.WriteByte(')')
 	case *formula.CallExpression:
 		sb.WriteString("(call")
@@ -111,13 +121,13 @@ func canon(sb *strings.Builder, e formula.Expression) {
 			sb.WriteString(" ...")
 		}
 		sb.WriteByte(' ')
-		canon(sb, n.Expression)
+		canon(sb, vals, n.Expression)
 		if n.Arguments == nil {
 			sb.WriteString(" <nilargs>")
 		} else {
 			for i := 0; i < n.Arguments.Len(); i++ {
 				sb.WriteByte(' ')
-				canon(sb, n.Arguments.At(i))
+				canon(sb, vals, n.Arguments.At(i))
 			}
 		}
 		sb.WriteByte(')')
@@ -128,13 +138,13 @@ func canon(sb *strings.Builder, e formula.Expression) {
 		} else {
 			for i := 0; i < n.Elements.Len(); i++ {
 				sb.WriteByte(' ')
-				canon(sb, n.Elements.At(i))
+				canon(sb, vals, n.Elements.At(i))
 			}
 		}
 		sb.WriteByte(')')
 	case *formula.ParenthesizedExpression:
 		sb.WriteString("(paren ")
-		canon(sb, n.Expression)
+		canon(sb, vals, n.Expression)
 		sb.WriteByte(')')
 	default:
 		fmt.Fprintf(sb, "<%T>", e)
